@@ -1388,6 +1388,35 @@ func checkC19(h *History, sc *ScanCtx, g *GroupCtx, r *Report) {
 			}
 		}
 	}
+	if sc.Exact && g.Plan.Stage == oracle.StDecide && g.Plan.BandDontCare == "" && g.Cache != nil && !g.Locked {
+		desired := g.Cache.Desired
+		judge := func(batch []string, what string) {
+			if len(batch) == 0 || !allMembers(g, batch) {
+				return
+			}
+			accepted := desired > g.Cache.Min && desired-int64(len(batch)) >= g.Cache.Min
+			if accepted {
+				desired -= int64(len(batch))
+				if len(batch) > 25 {
+					r.Covered(P, "large-batch-accepted:"+what)
+				}
+				return
+			}
+			r.Covered(P, fmt.Sprintf("batch-refused-as-a-whole:%s:size%s", what, bucketN(len(batch))))
+			in := set(batch)
+			for _, id := range g.TermTry {
+				if n := g.ViewNodeByInstance(id); n != nil && in[n.Name] {
+					r.Violate(P, "batch-breaching-minimum-partly-executed", "group %s: the %s batch of %d nodes would take desired %d below the minimum %d and has to be refused as a whole, yet %s was submitted for termination",
+						g.Cfg.Name, what, len(batch), desired, g.Cache.Min, n.Name)
+					return
+				}
+			}
+		}
+		judge(g.Plan.ForceReap, "force")
+		if g.Plan.ReaperRuns && g.Plan.Starve == oracle.MustNot && g.Plan.Age == oracle.MustNot {
+			judge(g.Plan.Reap, "reaper")
+		}
+	}
 	if len(g.TermTry) > 0 {
 		failed := len(g.TermTry) - len(g.TermOK)
 		sig := fmt.Sprintf("batch:%s:failed%d:deleted%v", bucketN(len(g.TermTry)), minI(failed, 2), len(g.Deleted) > 0)
